@@ -27,16 +27,7 @@ Lemma alpha_config_eq : forall o, alpha_config o = alpha_config_doc o.
 Proof. intros []. interp. reflexivity. Qed.
 
 Lemma lossy_config_eq : forall o q ha, lossy_config o q ha = lossy_config_doc o q ha.
-Proof.
-  intros [] q ha. interp.
-  repeat match goal with
-         | |- context [if ?b then _ else _] =>
-           lazymatch b with
-           | ha => fail
-           | _ => destruct b eqn:?
-           end
-         end; try reflexivity; destruct ha; reflexivity.
-Qed.
+Proof. intros [] q ha. interp. reflexivity. Qed.
 
 Lemma effective_eq : forall oo w h ha, effective oo w h ha = effective_doc oo w h ha.
 Proof.
@@ -51,7 +42,8 @@ Proof.
   destruct (fl_to_int (oQuality o)) as [q|]; [|reflexivity].
   destruct (oLossless o).
   - change F.lossless_maxdim_Encode with 16383. change F.lossless_maxdim_EncodeToWriter with 16383.
-    rewrite Ed, Em. cbn [orb]. unfold lossless_config. reflexivity.
+    apply orb_false_elim in Em. destruct Em as [Em1 Em2]. rewrite Em1, Em2. cbn [orb].
+    unfold lossless_config. reflexivity.
   - rewrite lossy_config_eq, alpha_config_eq. reflexivity.
 Qed.
 
@@ -90,13 +82,12 @@ Proof.
   intros o. unfold validate_doc. split.
   - intros H.
     repeat (apply orb_false_elim in H; let Ha := fresh "A" in destruct H as [Ha H]).
-    destruct (oQuality o) as [| | |nq] eqn:EQ; cbn in *; try discriminate.
-    destruct (oTargetPSNR o) as [| | |np] eqn:EP; cbn in *; try discriminate.
+    destruct (oQuality o) as [| | |nq] eqn:EQ; cbn [fl_lt fl_gt fl_isnan fl_isinf] in *; try discriminate.
+    destruct (oTargetPSNR o) as [| | |np] eqn:EP; cbn [fl_lt fl_gt fl_isnan fl_isinf] in *; try discriminate.
     unfold rq in *.
     constructor; try rewrite EQ; try rewrite EP; unfold fl_in, fl_fin_ge0, rq; try lia.
     + exists nq. split; [reflexivity|lia].
     + exists np. split; [reflexivity|lia].
-    + destruct (oQMax o <? 0) eqn:E; lia.
   - intros [[nq [EQ Hq]] Hm Ht [np [EP Hp]] Hpr Hps Hs Hf Hfs Hft Hpa Hsg Hpp Hqq Hac Haf Haq Hme].
     rewrite EQ, EP. cbn [fl_lt fl_gt fl_isnan fl_isinf]. unfold rq in *.
     destruct (oQMax o <? 0) eqn:E;
@@ -198,16 +189,16 @@ Proof.
       cbn [cQuality cTargetSize cTargetPSNR cMethod cSNS cFStrength cFSharpness cFType cPartitions cSegments
            cPass cPreprocessing cDither cQMin cQMax cHasAlpha].
       rewrite EP. cbn [fl_gt].
-      repeat split; try (destruct ha; lia); try lia.
-      * destruct (np >? 0 * fscale); [exists np|exists 0]; split; try reflexivity; lia.
-      * destruct (negb (Z.land (oPreprocessing o) 2 =? 0)) eqn:E; intros [= <-]. exists nq. split; [reflexivity|lia].
-      * destruct (negb (Z.land (oPreprocessing o) 2 =? 0)) eqn:E; intros [= <-]. lia.
+      repeat match goal with |- _ /\ _ => split end; try (destruct ha; lia); try lia.
+      all: try (repeat match goal with |- context [if ?b then _ else _] => destruct b eqn:? end; lia).
+      * destruct (np >? 0 * fscale) eqn:E; [exists np|exists 0]; split; try reflexivity; lia.
+      * rewrite EQ. destruct (negb (Z.land (oPreprocessing o) 2 =? 0)) eqn:E; intros q [= <-].
+        split; [exists nq; split; [reflexivity|lia] | lia].
       * destruct (negb (Z.land (oPreprocessing o) 2 =? 0)) eqn:E; [discriminate|]. intros _. lia.
     + unfold alpha_pre, alpha_config_doc, rs, doc_AlphaQuality, doc_AlphaCompression, doc_AlphaFiltering.
       cbn [aQuality aMethod aFilter aEffort].
-      repeat split; try lia.
-      destruct (oAlphaFiltering o <? 0) eqn:E1; [cbn; lia|].
-      destruct (oAlphaFiltering o =? 0) eqn:E2; [lia|]. destruct (oAlphaFiltering o =? 2); lia.
+      repeat match goal with |- _ /\ _ => split end;
+        repeat match goal with |- context [if ?b then _ else _] => destruct b eqn:? end; lia.
     + unfold meta_pre. lia.
 Qed.
 
@@ -313,7 +304,7 @@ Proof. intros [] b w h ha. rewrite !effective_eq. reflexivity. Qed.
 Theorem no_effect_Preset : forall o p w h ha, 0 <= p <= 5 -> 0 <= oPreset o <= 5 ->
   effective (Some (set_int F.fld_Preset p o)) w h ha = effective (Some o) w h ha.
 Proof.
-  intros [] p w h ha Hp Ho. cbn [oPreset] in Ho. rewrite !effective_eq.
+  intros [] p w h ha Hp Ho. cbn in Ho. rewrite !effective_eq.
   unfold effective_doc, validate_doc. interp.
   replace (p <? 0) with false by lia. replace (p >? 5) with false by lia.
   replace (oPreset <? 0) with false by lia. replace (oPreset >? 5) with false by lia.
